@@ -428,6 +428,9 @@ def run(run):
     run.witness('both admissible and raising masks were reached', n_paths > 100)
     obls = section_noise(rep)
     rep.finish(rep.batch(obls), PROP)
+    rep.selfcheck(PROP, [{'check': 'noise', 'point': {}}] + [{'check': 'model', 'point': {}, 'params': {'bias': list(b), 'walk': list(w), 'noise': list(n_), 'sm': sm}}
+                                                            for (b, w, n_, sm) in [((True, True, True), (True, False, True), (True, True, True), 0b100010001), ((True, False, True), (False, False, True), (False, True, False), 0b000000110),
+                                                                                   ((False, False, False), (False, False, False), (False, False, False), 0), ((True, True, False), (False, False, True), (True, False, False), 0)]])
     for can in CANARIES:
         name = can[0]
         try:
